@@ -327,7 +327,7 @@ class C20(InputProp):
                     for k in range(1, n + 1):
                         cases.append((name, previous, "error", k, errno.ENOSPC, 0))
                         cases.append((name, previous, "error", k, errno.EIO, 0))
-                if (tier != "quick" and name != "render") or name in ("status",):
+                if name != "render":
                     for k1 in range(1, n + 1):
                         for k2 in range(k1 + 1, n + 3):
                             cases.append((name, previous, "error+crash", k1, errno.ENOSPC, k2))
